@@ -29,6 +29,7 @@ def P(pid):
     meta = {'explanation': '', 'assumptions': []}
     if pid == 'C01':
         R = [
+            ('RF-P Q_1 * domain is added on every path, whatever the number of messages', rf_codec.rule_domain_term_on_every_path, 3),
             ('RF-S the tests success rests on hold the way round and with the strictness they had', lambda c: rf_senses.rule_acceptance_senses(c, group='bbs', strict=False, only=['::sign', '::verify']), 1),
             ('RF-D identity / zero guards test the value that is used afterwards', rf_gates.rule_guards_test_final_value, 4),
             ('RF-B pass-through arguments keep their role', rf_consts.rule_argument_roles, 40),
@@ -47,6 +48,8 @@ def P(pid):
                                'from sign and verify (necessary for agreement), ciphersuite constant table. The pairing algebra is not decided.')
     elif pid == 'C02':
         R = [
+            ('RF-Y no accept path goes on because a fallible operation failed', rf_errors.rule_failures_do_not_pass, 2),
+            ('RF-P Q_1 * domain is added on every path, whatever the number of messages', rf_codec.rule_domain_term_on_every_path, 3),
             ('RF-S the tests success rests on hold the way round and with the strictness they had', lambda c: rf_senses.rule_acceptance_senses(c, group='bbs', strict=False, only=['::verify']), 1),
             ('RF-E decoder inputs are copied, never computed', rf_frame.rule_decoder_input_integrity, 2),
             ('RF-Y failures of fallible operations are never discarded', rf_errors.rule_errors_not_discarded, 60),
@@ -69,6 +72,7 @@ def P(pid):
                                'messages, header and the interface constants in its data-dependence slice. Collision resistance is assumed.')
     elif pid == 'C04':
         R = [
+            ('RF-Y no accept path goes on because a fallible operation failed', rf_errors.rule_failures_do_not_pass, 2),
             ('RF-S the tests success rests on hold the way round and with the strictness they had', lambda c: rf_senses.rule_acceptance_senses(c, group='bbs', strict=False, only=['::proof_verify']), 1),
             ('RF-E decoder inputs are copied, never computed', rf_frame.rule_decoder_input_integrity, 2),
             ('RF-D identity / zero guards test the value that is used afterwards', rf_gates.rule_guards_test_final_value, 4),
@@ -93,6 +97,7 @@ def P(pid):
                                'on every constructor path, the disclosed messages stay paired with their indexes (no list of a pair is re-ordered without the other), and the blind verifier keeps signer positions (below L) and committed positions (below M) apart. Knowledge soundness of the sigma protocol itself is not decided.')
     elif pid == 'C06':
         R = [
+            ('RF-Y no accept path goes on because a fallible operation failed', rf_errors.rule_failures_do_not_pass, 2),
             ('RF-S the tests success rests on hold the way round and with the strictness they had', lambda c: rf_senses.rule_acceptance_senses(c, group='bbs', strict=False, only=['::blind_sign', '::blind_proof_verify', 'deserialize_and_validate_commit']), 1),
             ('RF-B committed index translation and signer generator count use L + 1', rf_codec.rule_index_translation, 4),
             ('RF-L the blind verifier keeps signer and committed positions apart', rf_frame.rule_blind_verifier_index_ranges, 4),
@@ -113,6 +118,7 @@ def P(pid):
                                'blind verification gates depend on committed messages, signer messages, blind factor, L, header, ph, pk.')
     elif pid == 'C11':
         R = [
+            ('RF-Y no accept path goes on because a fallible operation failed', rf_errors.rule_failures_do_not_pass, 2),
             ('RF-Y failures of fallible operations are never discarded', rf_errors.rule_errors_not_discarded, 60),
             ('RF-B interface constants (all entry points)', rf_consts.rule_interface_constants, 40),
             ('RF-B pass-through arguments keep their role (an api_id handed on is the caller\'s api_id, also in the public helpers)', rf_consts.rule_argument_roles, 40),
@@ -127,6 +133,7 @@ def P(pid):
                                'every interface constant. Disjointness of hash-to-curve outputs is assumed, not decided.')
     elif pid == 'C03':
         R = [
+            ('RF-P Q_1 * domain is added on every path, whatever the number of messages', rf_codec.rule_domain_term_on_every_path, 3),
             ('RF-S the tests success rests on hold the way round and with the strictness they had', lambda c: rf_senses.rule_acceptance_senses(c, group='bbs', strict=False, only=['::proof_gen', '::proof_verify']), 1),
             ('RF-B pass-through arguments keep their role', rf_consts.rule_argument_roles, 40),
             ('RF-B message lists handed down whole', rf_consts.rule_list_integrity, 15),
@@ -156,6 +163,7 @@ def P(pid):
                                'under cfg(test)) equals the mocked one and the consumer guard. The Schnorr algebra is not decided.')
     elif pid == 'C05':
         R = [
+            ('RF-P Q_1 * domain is added on every path, whatever the number of messages', rf_codec.rule_domain_term_on_every_path, 3),
             ('RF-S the tests success rests on hold the way round and with the strictness they had', lambda c: rf_senses.rule_acceptance_senses(c, group='bbs', strict=False, only=['::commit', '::blind_sign', '::verify_blind_sign', '::blind_proof_gen', '::blind_proof_verify', 'deserialize_and_validate_commit']), 1),
             ('RF-B index normalisation (prover and verifier agree on the canonical index lists)', rf_codec.rule_index_normalisation, 3),
             ('RF-D identity / zero guards test the value that is used afterwards', rf_gates.rule_guards_test_final_value, 4),
@@ -185,6 +193,7 @@ def P(pid):
         R = [
             ('RF-G1 CSPRNG provenance', rf_rand.rule_randomness_provenance, 8),
             ('RF-G2 one draw per element', rf_rand.rule_draw_in_loop, 2),
+            ('RF-G1 buffers have their final length when the generator fills them', rf_rand.rule_filled_buffers, 2),
             ('RF-G2 role positions', rf_rand.rule_role_projection, 6),
             ('RF-G4 responses are masked', rf_rand.rule_response_masks, 12),
             ('RF-O production/mock twin agreement', rf_rand.rule_cfg_twins, 8),
@@ -323,6 +332,7 @@ def P(pid):
             ('RF-Q range proofs are made and checked for the interval of the quantity they are about', CL.rule_range_statement_intervals, 2),
             ('RF-D no verifier says true from inside a loop over the parts of a proof', CL.rule_no_early_accept, 2),
             ('RF-O provers and verifiers of the sigma protocols raise the same bases in the same order, one response per mask', CL.rule_prover_verifier_bases, 7),
+            ('RF-B sub-prover and sub-verifier calls get bases selected the same way', CL.rule_subprotocol_bases_agree, 2),
             ('RF-B parameters of the range-proof functions are handed on under their own name', lambda c: rf_consts.rule_argument_roles(c, scope=('cl03::range_proof::',), callee_scope=('cl03::range_proof::',), roles=('g', 'h', 'n', 't', 'l', 's', 's1', 's2', 'T', 'a', 'b'), min_sites=20, tag=':range-proof'), 20),
             ('RF-S guards of the issuing and committing functions keep their sense', lambda c: rf_senses.rule_acceptance_senses(c, scope=('cl03::blind::', 'cl03::commitment::'), floor=2), 1),
         ]
@@ -353,6 +363,7 @@ def P(pid):
             ('RF-Q range proofs are made and checked for the interval of the quantity they are about', CL.rule_range_statement_intervals, 2),
             ('RF-D no verifier says true from inside a loop over the parts of a proof', CL.rule_no_early_accept, 2),
             ('RF-O provers and verifiers of the sigma protocols raise the same bases in the same order, one response per mask', CL.rule_prover_verifier_bases, 7),
+            ('RF-B sub-prover and sub-verifier calls get bases selected the same way', CL.rule_subprotocol_bases_agree, 2),
             ('RF-B parameters of the range-proof functions are handed on under their own name', lambda c: rf_consts.rule_argument_roles(c, scope=('cl03::range_proof::',), callee_scope=('cl03::range_proof::',), roles=('g', 'h', 'n', 't', 'l', 's', 's1', 's2', 'T', 'a', 'b'), min_sites=20, tag=':range-proof'), 20),
             ('RF-P no range 0..=n over a count', CL.rule_no_inclusive_count_ranges, 2),
             ('RF-B literal base positions are position 0', CL.rule_constant_base_positions, 2),
@@ -381,6 +392,7 @@ def P(pid):
             ('RF-S the tests acceptance rests on hold the way round and with the strictness they had', lambda c: rf_senses.rule_acceptance_senses(c, group='cl03', only=['Boudot2000RangeProof::verify']), 1),
             ('RF-D no verifier says true from inside a loop over the parts of a proof', CL.rule_no_early_accept, 2),
             ('RF-O provers and verifiers of the sigma protocols raise the same bases in the same order, one response per mask', CL.rule_prover_verifier_bases, 7),
+            ('RF-B sub-prover and sub-verifier calls get bases selected the same way', CL.rule_subprotocol_bases_agree, 2),
             ('RF-B parameters of the range-proof functions are handed on under their own name', lambda c: rf_consts.rule_argument_roles(c, scope=('cl03::range_proof::',), callee_scope=('cl03::range_proof::',), roles=('g', 'h', 'n', 't', 'l', 's', 's1', 's2', 'T', 'a', 'b'), min_sites=20, tag=':range-proof'), 20),
             ('RF-S guards of the range prover keep their sense', lambda c: rf_senses.rule_acceptance_senses(c, scope=('cl03::range_proof::',)), 1),
         ]
@@ -428,24 +440,24 @@ ALL = ['C%02d' % i for i in range(1, 20)]
 # positive controls (thorough tier): patches that break the property; the property's own quick check must report each of them.
 # unfix-* = reverse of a `fix:` commit of /repo; seeded/* = changes written by independent sub-agents (see DESIGN.md section 6).
 CONTROLS = {
-    'C01': ['seeded/C01-a/patch.diff', 'seeded/C01-b/patch.diff', 'seeded/C01-c/patch.diff', 'seeded/C01-d/patch.diff', 'seeded/C01-e/patch.diff', 'seeded/C01-g/patch.diff'],
+    'C01': ['seeded/C01-a/patch.diff', 'seeded/C01-b/patch.diff', 'seeded/C01-c/patch.diff', 'seeded/C01-d/patch.diff', 'seeded/C01-e/patch.diff', 'seeded/C01-g/patch.diff', 'seeded/C01-j/patch.diff'],
     'C02': ['selftest/mutants/unfix-1a8aa8f.patch', 'seeded/C02-a/patch.diff', 'seeded/C04-a/patch.diff', 'seeded/C02-b/patch.diff', 'seeded/C02-c/patch.diff', 'seeded/C02-d/patch.diff', 'seeded/C02-e/patch.diff', 'seeded/C02-g/patch.diff', 'seeded/C02-h/patch.diff'],
     'C03': ['seeded/C03-a/patch.diff', 'seeded/C03-c/patch.diff', 'seeded/C03-d/patch.diff', 'seeded/C03-e/patch.diff', 'seeded/C03-g/patch.diff', 'seeded/C03-h/patch.diff', 'seeded/C03-i/patch.diff'],
     'C04': ['selftest/mutants/unfix-4e31b69.patch', 'selftest/mutants/unfix-1c8b8b0.patch', 'selftest/mutants/unfix-99e0eb6.patch', 'selftest/mutants/unfix-44a689e.patch', 'seeded/C04-a/patch.diff', 'seeded/C04-b/patch.diff', 'seeded/C04-c/patch.diff', 'seeded/C04-d/patch.diff', 'seeded/C04-f/patch.diff', 'seeded/C04-h/patch.diff', 'seeded/C04-i/patch.diff'],
     'C05': ['seeded/C05-a/patch.diff', 'seeded/C05-b/patch.diff', 'seeded/C05-c/patch.diff', 'seeded/C05-d/patch.diff', 'seeded/C05-e/patch.diff', 'seeded/C05-g/patch.diff', 'seeded/C05-h/patch.diff'],
     'C06': ['selftest/mutants/unfix-99e0eb6.patch', 'selftest/mutants/unfix-44a689e.patch', 'seeded/C06-a/patch.diff', 'seeded/C06-b/patch.diff', 'seeded/C06-c/patch.diff', 'seeded/C06-d/patch.diff', 'seeded/C06-e/patch.diff', 'seeded/C06-f/patch.diff', 'seeded/C06-h/patch.diff', 'seeded/C06-i/patch.diff'],
-    'C07': ['seeded/C07-a/patch.diff', 'seeded/C07-b/patch.diff', 'seeded/C07-c/patch.diff', 'seeded/C07-d/patch.diff', 'seeded/C07-e/patch.diff', 'seeded/C07-g/patch.diff'],
-    'C08': ['selftest/mutants/unfix-928b770.patch', 'selftest/mutants/unfix-05eab20.patch', 'selftest/mutants/unfix-6597d81.patch', 'seeded/C08-b/patch.diff', 'selftest/mutants/work-unbounded-L.patch', 'seeded/C08-d/patch.diff', 'seeded/C08-e/patch.diff', 'seeded/C08-g/patch.diff'],
+    'C07': ['seeded/C07-a/patch.diff', 'seeded/C07-b/patch.diff', 'seeded/C07-c/patch.diff', 'seeded/C07-d/patch.diff', 'seeded/C07-e/patch.diff', 'seeded/C07-g/patch.diff', 'seeded/C07-j/patch.diff'],
+    'C08': ['selftest/mutants/unfix-928b770.patch', 'selftest/mutants/unfix-05eab20.patch', 'selftest/mutants/unfix-6597d81.patch', 'seeded/C08-b/patch.diff', 'selftest/mutants/work-unbounded-L.patch', 'seeded/C08-d/patch.diff', 'seeded/C08-e/patch.diff', 'seeded/C08-g/patch.diff', 'seeded/C08-j/patch.diff', 'seeded/C08-k/patch.diff'],
     'C09': ['selftest/mutants/unfix-928b770.patch', 'selftest/mutants/unfix-4e31b69.patch', 'selftest/mutants/unfix-e3aa4b0.patch', 'selftest/mutants/unfix-1a8aa8f.patch', 'selftest/mutants/unfix-07e52dd.patch', 'selftest/mutants/unfix-dc0c0a4.patch', 'seeded/C09-a/patch.diff', 'seeded/C09-b/patch.diff', 'seeded/C09-c/patch.diff', 'seeded/C09-d/patch.diff', 'seeded/C09-e/patch.diff', 'seeded/C09-f/patch.diff', 'seeded/C09-h/patch.diff', 'seeded/C09-i/patch.diff'],
     'C10': ['selftest/mutants/unfix-1a8aa8f.patch', 'selftest/mutants/unfix-e3aa4b0.patch', 'seeded/C10-a/patch.diff', 'seeded/C10-b/patch.diff', 'seeded/C10-c/patch.diff', 'seeded/C10-d/patch.diff', 'seeded/C10-e/patch.diff', 'seeded/C10-f/patch.diff', 'seeded/C10-h/patch.diff', 'seeded/C10-i/patch.diff'],
-    'C11': ['seeded/C11-a/patch.diff', 'seeded/C11-b/patch.diff', 'seeded/C11-c/patch.diff', 'seeded/C11-d/patch.diff', 'seeded/C11-e/patch.diff', 'seeded/C11-g/patch.diff'],
+    'C11': ['seeded/C11-a/patch.diff', 'seeded/C11-b/patch.diff', 'seeded/C11-c/patch.diff', 'seeded/C11-d/patch.diff', 'seeded/C11-e/patch.diff', 'seeded/C11-g/patch.diff', 'seeded/C11-j/patch.diff'],
     'C12': ['selftest/mutants/unfix-ae1f505.patch', 'seeded/C12-a/patch.diff', 'seeded/C12-b/patch.diff', 'seeded/C12-c/patch.diff', 'seeded/C12-d/patch.diff', 'seeded/C12-e/patch.diff', 'seeded/C12-g/patch.diff', 'seeded/C12-h/patch.diff'],
-    'C13': ['selftest/mutants/unfix-4faa0f0.patch', 'selftest/mutants/unfix-d5d2c0e.patch', 'selftest/mutants/unfix-d882cd3.patch', 'seeded/C13-a/patch.diff', 'seeded/C13-b/patch.diff', 'seeded/C13-c/patch.diff', 'seeded/C13-d/patch.diff', 'seeded/C13-e/patch.diff', 'seeded/C13-f/patch.diff', 'seeded/C13-h/patch.diff', 'seeded/C13-i/patch.diff'],
-    'C14': ['selftest/mutants/unfix-2e6b8d5.patch', 'selftest/mutants/unfix-2d01ace.patch', 'selftest/mutants/unfix-7b76bb5.patch', 'selftest/mutants/unfix-16c9f60.patch', 'selftest/mutants/unfix-9a8e02d.patch', 'seeded/C14-b/patch.diff', 'seeded/C14-d/patch.diff', 'seeded/C14-e/patch.diff', 'seeded/C14-f/patch.diff', 'seeded/C14-h/patch.diff', 'seeded/C14-i/patch.diff'],
-    'C15': ['selftest/mutants/unfix-2d01ace.patch', 'selftest/mutants/unfix-85ebe8e.patch', 'selftest/mutants/unfix-164e21b.patch', 'seeded/C15-a/patch.diff', 'seeded/C15-b/patch.diff', 'seeded/C15-c/patch.diff', 'seeded/C15-d/patch.diff', 'seeded/C15-e/patch.diff', 'seeded/C15-f/patch.diff', 'seeded/C15-h/patch.diff', 'seeded/C15-i/patch.diff'],
-    'C16': ['selftest/mutants/unfix-b52ed69.patch', 'selftest/mutants/unfix-2d81d25.patch', 'selftest/mutants/unfix-96df85f.patch', 'seeded/C16-a/patch.diff', 'seeded/C16-b/patch.diff', 'seeded/C16-c/patch.diff', 'seeded/C16-d/patch.diff', 'seeded/C16-f/patch.diff', 'seeded/C16-h/patch.diff', 'seeded/C16-i/patch.diff'],
-    'C17': ['seeded/C17-a/patch.diff', 'seeded/C17-b/patch.diff', 'seeded/C17-c/patch.diff', 'seeded/C17-d/patch.diff', 'seeded/C17-e/patch.diff', 'seeded/C17-g/patch.diff'],
-    'C18': ['seeded/C18-a/patch.diff', 'seeded/C18-b/patch.diff', 'seeded/C18-c/patch.diff', 'seeded/C18-d/patch.diff', 'seeded/C18-e/patch.diff', 'seeded/C18-g/patch.diff'],
+    'C13': ['selftest/mutants/unfix-4faa0f0.patch', 'selftest/mutants/unfix-d5d2c0e.patch', 'selftest/mutants/unfix-d882cd3.patch', 'seeded/C13-a/patch.diff', 'seeded/C13-b/patch.diff', 'seeded/C13-c/patch.diff', 'seeded/C13-d/patch.diff', 'seeded/C13-e/patch.diff', 'seeded/C13-f/patch.diff', 'seeded/C13-h/patch.diff', 'seeded/C13-i/patch.diff', 'seeded/C13-j/patch.diff'],
+    'C14': ['selftest/mutants/unfix-2e6b8d5.patch', 'selftest/mutants/unfix-2d01ace.patch', 'selftest/mutants/unfix-7b76bb5.patch', 'selftest/mutants/unfix-16c9f60.patch', 'selftest/mutants/unfix-9a8e02d.patch', 'seeded/C14-b/patch.diff', 'seeded/C14-d/patch.diff', 'seeded/C14-e/patch.diff', 'seeded/C14-f/patch.diff', 'seeded/C14-h/patch.diff', 'seeded/C14-i/patch.diff', 'seeded/C14-j/patch.diff'],
+    'C15': ['selftest/mutants/unfix-2d01ace.patch', 'selftest/mutants/unfix-85ebe8e.patch', 'selftest/mutants/unfix-164e21b.patch', 'seeded/C15-a/patch.diff', 'seeded/C15-b/patch.diff', 'seeded/C15-c/patch.diff', 'seeded/C15-d/patch.diff', 'seeded/C15-e/patch.diff', 'seeded/C15-f/patch.diff', 'seeded/C15-h/patch.diff', 'seeded/C15-i/patch.diff', 'seeded/C15-j/patch.diff'],
+    'C16': ['selftest/mutants/unfix-b52ed69.patch', 'selftest/mutants/unfix-2d81d25.patch', 'selftest/mutants/unfix-96df85f.patch', 'seeded/C16-a/patch.diff', 'seeded/C16-b/patch.diff', 'seeded/C16-c/patch.diff', 'seeded/C16-d/patch.diff', 'seeded/C16-f/patch.diff', 'seeded/C16-h/patch.diff', 'seeded/C16-i/patch.diff', 'seeded/C16-j/patch.diff', 'seeded/C16-k/patch.diff'],
+    'C17': ['seeded/C17-a/patch.diff', 'seeded/C17-b/patch.diff', 'seeded/C17-c/patch.diff', 'seeded/C17-d/patch.diff', 'seeded/C17-e/patch.diff', 'seeded/C17-g/patch.diff', 'seeded/C17-j/patch.diff', 'seeded/C17-k/patch.diff'],
+    'C18': ['seeded/C18-a/patch.diff', 'seeded/C18-b/patch.diff', 'seeded/C18-c/patch.diff', 'seeded/C18-d/patch.diff', 'seeded/C18-e/patch.diff', 'seeded/C18-g/patch.diff', 'seeded/C18-j/patch.diff', 'seeded/C18-k/patch.diff'],
     'C19': ['seeded/C19-a/patch.diff', 'seeded/C19-b/patch.diff', 'seeded/C19-c/patch.diff', 'seeded/C19-d/patch.diff', 'seeded/C19-e/patch.diff', 'seeded/C19-g/patch.diff'],
 }
 
